@@ -565,7 +565,25 @@ class ServerTls(Server):
                                  cafilepath=self.cafilepath,
                                 )
 
+            if ca in self.cxes and self.cxes[ca] is not remoter:
+                self.cxes[ca].close()  # replaced before its handshake completed
             self.cxes[ca] = remoter
+
+
+    def closeAllCx(self):
+        """
+        Shutdown and close all connections whose handshake is not complete
+        """
+        for cx in self.cxes.values():
+            cx.close()
+
+
+    def close(self):
+        """
+        Close all sockets
+        """
+        super(ServerTls, self).close()  #  call super close
+        self.closeAllCx()
 
 
     def serviceCxes(self):
@@ -577,6 +595,8 @@ class ServerTls(Server):
             cx.handshake()
             if cx.connected:  # handshake completed successfully
                 del self.cxes[ca]
+                if ca in self.ixes and self.ixes[ca] is not cx:
+                    self.closeIx(ca)  # shutdown and close replaced connection
                 self.ixes[ca] = cx  # add to incoming connections
                 continue
             if cx.aborted:  # handshake completed unsuccessfully
